@@ -135,10 +135,139 @@ type world struct {
 	seen     map[string]M      // C01: first observed creation / completion fields per promise id
 	submitAt map[string]int64  // clock when a request was submitted (its coroutine starts no earlier)
 	leases   map[string]*lease // C07: lower bound of the lease end per task id
+	lockLeases map[string]*lease // C09: lower bound of the lease end per resource id (pid field = execution id)
 	claimed  map[string]bool   // C07: (task id, counter) pairs whose claim was acknowledged
 	stepNo     int
 	submitStep map[string]int // step at which a request was submitted
 	doneStep   map[string]int // C01: step at which a promise was first observed completed
+}
+
+// c09Leases: the lock of a resource is not taken from its execution (row deleted or owned by another execution, without
+// a release by the holder in the same batch) while the clock is before a lower bound of its lease end
+// (acquire / re-acquire / heartbeat processing time + ttl, each >= the submission clock + ttl)
+func (w *world) c09Leases(counts map[string]int, reqs map[string]M, items []Item, prev, cur map[string]any, now int64) string {
+	rowsOf := func(d map[string]any) map[string]map[string]any {
+		out := map[string]map[string]any{}
+		xs, _ := d["locks"].([]any)
+		for _, x := range xs {
+			if m, ok := x.(map[string]any); ok {
+				out[fmt.Sprint(m["resourceId"])] = m
+			}
+		}
+		return out
+	}
+	pl, cl := rowsOf(prev), rowsOf(cur)
+	released := map[string]bool{}
+	for _, it := range items {
+		rq := reqs[it.Tid]
+		if c, _ := rq["c"].(map[string]any); rq["k"] == "ReleaseLock" && c != nil {
+			released[fmt.Sprint(c["resourceId"])+"\x00"+fmt.Sprint(c["executionId"])] = true
+		}
+	}
+	for rid, t := range pl {
+		l := w.lockLeases[rid]
+		if l == nil || l.pid != fmt.Sprint(t["executionId"]) {
+			continue
+		}
+		u := cl[rid]
+		if u != nil && fmt.Sprint(u["executionId"]) == l.pid {
+			continue
+		}
+		counts["lock_lost"]++
+		// a re-acquire (or heartbeat) of the holder inside this very batch may have shortened the lease before the
+		// sweep of the same batch ran: take the smaller bound
+		lb := l.lb
+		for _, it := range items {
+			rq := reqs[it.Tid]
+			c, _ := rq["c"].(map[string]any)
+			if c == nil || it.Mode == "before" {
+				continue
+			}
+			ttl := int64(-1)
+			switch {
+			case rq["k"] == "AcquireLock" && fmt.Sprint(c["resourceId"]) == rid && fmt.Sprint(c["executionId"]) == l.pid:
+				ttl = jnum(c["ttl"])
+				if l.ttl < ttl {
+					ttl = l.ttl
+				}
+			case rq["k"] == "HeartbeatLocks" && fmt.Sprint(c["processId"]) == fmt.Sprint(t["processId"]):
+				ttl = l.ttl
+			}
+			if ttl >= 0 && w.submitAt[it.Tid]+ttl < lb {
+				lb = w.submitAt[it.Tid] + ttl
+			}
+		}
+		if released[rid+"\x00"+l.pid] || now >= lb {
+			continue
+		}
+		return fmt.Sprintf("lock on %q held by execution %s was taken away at clock %d although its lease (ttl %d) cannot end before %d: %v -> %v", rid, l.pid, now, l.ttl, lb, t, u)
+	}
+	for rid, u := range cl {
+		eid := fmt.Sprint(u["executionId"])
+		t := pl[rid]
+		fresh := t == nil || fmt.Sprint(t["executionId"]) != eid
+		if !fresh && reflect.DeepEqual(t, u) {
+			continue
+		}
+		l := w.lockLeases[rid]
+		if fresh || l == nil || l.pid != eid {
+			l = nil
+		}
+		// candidates of this batch
+		minTtl, minSubmit := int64(-1), int64(-1)
+		for _, it := range items {
+			rq := reqs[it.Tid]
+			c, _ := rq["c"].(map[string]any)
+			if c == nil || it.Mode == "before" {
+				continue
+			}
+			switch {
+			case rq["k"] == "AcquireLock" && fmt.Sprint(c["resourceId"]) == rid && fmt.Sprint(c["executionId"]) == eid:
+				if ttl := jnum(c["ttl"]); minTtl < 0 || ttl < minTtl {
+					minTtl = ttl
+				}
+			case rq["k"] == "HeartbeatLocks" && !fresh && fmt.Sprint(c["processId"]) == fmt.Sprint(u["processId"]):
+			default:
+				continue
+			}
+			if sa := w.submitAt[it.Tid]; minSubmit < 0 || sa < minSubmit {
+				minSubmit = sa
+			}
+		}
+		if minSubmit < 0 {
+			delete(w.lockLeases, rid)
+			continue
+		}
+		if l == nil {
+			if minTtl < 0 {
+				delete(w.lockLeases, rid)
+				continue
+			}
+			counts["lock_acquired"]++
+			w.lockLeases[rid] = &lease{lb: minSubmit + minTtl, ttl: minTtl, pid: eid}
+			continue
+		}
+		// the row was renewed by a re-acquire (its own ttl) and / or a heartbeat (the ttl stored by the last acquire;
+		// inside one batch the order is unknown, so the smaller of the old and the new ttl bounds the renewal)
+		counts["lock_renewed"]++
+		eff := l.ttl
+		if minTtl >= 0 && minTtl < eff {
+			eff = minTtl
+		}
+		if minTtl >= 0 {
+			// a re-acquire REPLACES the lease (a shorter ttl shortens it)
+			l.lb = minSubmit + eff
+			l.ttl = minTtl
+		} else if lb := minSubmit + eff; lb > l.lb {
+			l.lb = lb
+		}
+	}
+	for rid := range w.lockLeases {
+		if cl[rid] == nil {
+			delete(w.lockLeases, rid)
+		}
+	}
+	return ""
 }
 
 type lease struct {
@@ -373,7 +502,7 @@ func newWorld(path string, cfg Cfg, bg bool) (*world, error) {
 		return nil, err
 	}
 	boot.Close()
-	w := &world{cfg: cfg, bg: bg, path: path, seen: map[string]M{}, submitAt: map[string]int64{}, leases: map[string]*lease{}, claimed: map[string]bool{}, submitStep: map[string]int{}, doneStep: map[string]int{}}
+	w := &world{cfg: cfg, bg: bg, path: path, seen: map[string]M{}, submitAt: map[string]int64{}, leases: map[string]*lease{}, lockLeases: map[string]*lease{}, claimed: map[string]bool{}, submitStep: map[string]int{}, doneStep: map[string]int{}}
 	w.rdb, err = sql.Open("sqlite3", path)
 	if err != nil {
 		return nil, err
@@ -507,6 +636,55 @@ func respMonitor(w *world, reqs map[string]M, tid string, resp map[string]any, t
 			for _, p := range ps {
 				if overdue(p) {
 					return "C04", "", fmt.Sprintf("search response reports a pending promise past its timeout at tick %d: %v", t, p)
+				}
+			}
+		}
+	}
+	if monitors["C03"] {
+		c, _ := reqs[tid]["c"].(map[string]any)
+		if kind == "CreatePromiseAndTask" && c != nil {
+			c, _ = c["promise"].(map[string]any)
+		}
+		p, _ := resp["promise"].(map[string]any)
+		st := num(resp["status"])
+		rowOf := func(id any) map[string]any {
+			xs, _ := w.prev["promises"].([]any)
+			for _, x := range xs {
+				if row, _ := x.(map[string]any); row != nil && fmt.Sprint(row["id"]) == fmt.Sprint(id) {
+					return row
+				}
+			}
+			return nil
+		}
+		switch {
+		case c == nil:
+		case kind == "CreatePromise" || kind == "CreatePromiseAndTask":
+			strict := c["strict"] == true
+			if st == 20000 && p != nil {
+				if c["idempotencyKey"] == nil || !reflect.DeepEqual(c["idempotencyKey"], p["idempotencyKeyForCreate"]) {
+					return "C03", "", fmt.Sprintf("%s without the promise's creation key was acknowledged (200): request key %v, promise key %v", kind, c["idempotencyKey"], p["idempotencyKeyForCreate"])
+				}
+				if strict && num(p["state"]) != 1 {
+					return "C03", "", fmt.Sprintf("strict %s was acknowledged (200) although the promise is no longer pending (state %d)", kind, num(p["state"]))
+				}
+			}
+			if st == 40900 && !strict && c["idempotencyKey"] != nil {
+				if row := rowOf(c["id"]); row != nil && reflect.DeepEqual(fmt.Sprint(row["idempotencyKeyForCreate"]), fmt.Sprint(c["idempotencyKey"])) {
+					return "C03", "", fmt.Sprintf("non-strict %s carrying the promise's own creation key %v was refused (409)", kind, c["idempotencyKey"])
+				}
+			}
+		case kind == "CompletePromise":
+			strict := c["strict"] == true
+			if st == 20000 && p != nil {
+				timedout := !strict && num(p["state"]) == 16
+				keyOk := c["idempotencyKey"] != nil && reflect.DeepEqual(c["idempotencyKey"], p["idempotencyKeyForComplete"]) && (!strict || num(p["state"]) == num(c["state"]))
+				if !timedout && !keyOk {
+					return "C03", "", fmt.Sprintf("completion acknowledged (200) without the completion key / against strict mode: request %v, promise state %d key %v", c, num(p["state"]), p["idempotencyKeyForComplete"])
+				}
+			}
+			if st >= 40300 && st < 40400 && !strict && c["idempotencyKey"] != nil {
+				if row := rowOf(c["id"]); row != nil && num(row["state"]) != 1 && reflect.DeepEqual(fmt.Sprint(row["idempotencyKeyForComplete"]), fmt.Sprint(c["idempotencyKey"])) {
+					return "C03", "", fmt.Sprintf("non-strict completion carrying the promise's own completion key %v was refused (%d)", c["idempotencyKey"], st)
 				}
 			}
 		}
@@ -720,6 +898,15 @@ func (r *runner) apply(w *world, st Step) (M, bool) {
 			cur := nd.(map[string]any)
 			if pid, what := monitor.Check(monitors, w.prev, cur); pid != "" {
 				return M{"what": "property monitor failed on the implementation", "property": pid, "diff": what, "property_violation": true, "step": st}, false
+			}
+			if monitors["C09"] {
+				pv := w.prev
+				if pv == nil {
+					pv = map[string]any{}
+				}
+				if what := w.c09Leases(r.counts, r.reqs, st.Items, pv, cur, r.now); what != "" {
+					return M{"what": "property monitor failed on the implementation", "property": "C09", "diff": what, "property_violation": true, "step": st}, false
+				}
 			}
 			if monitors["C07"] {
 				pv := w.prev
@@ -1040,7 +1227,47 @@ func (r *runner) generate(g *gen.G, cfg Cfg, bg bool, o genOpts) ([]Step, int, M
 		// sweeps before the renewed lease ends
 		return settle(3, int64(ttl)/5)
 	}
+	// a lock holder's life: acquire, re-acquire with a longer ttl, heartbeat, and sweeps before the renewed lease ends
+	lockScenario := func() (M, bool) {
+		rid, eid, pidW := g.Pick(gen.ResIds), g.Pick(gen.ExecIds), g.Pick(gen.ProcIds)
+		ttl1 := int64([]int{1000, 2000, 3000}[g.R.Intn(3)])
+		ttl2 := ttl1 + int64([]int{0, 2000, 4000}[g.R.Intn(3)])
+		submit := func(k t_api.Kind, fill func(*t_api.Request)) (M, bool) {
+			nreq++
+			tid := fmt.Sprintf("r%d", nreq)
+			rq := &t_api.Request{Kind: k, Tags: map[string]string{"id": tid, "name": k.String(), "protocol": "dst"}}
+			fill(rq)
+			if info, pred := do(Step{Op: "submit", Tid: tid, Req: canon.Req(rq)}); info != nil {
+				return info, pred
+			}
+			return settle(3, 1)
+		}
+		for _, ttl := range []int64{ttl1, ttl2} {
+			ttl := ttl
+			if info, pred := submit(t_api.AcquireLock, func(rq *t_api.Request) {
+				rq.AcquireLock = &t_api.AcquireLockRequest{ResourceId: rid, ExecutionId: eid, ProcessId: pidW, Ttl: ttl}
+			}); info != nil {
+				return info, pred
+			}
+		}
+		now += ttl1 / 2
+		if info, pred := do(Step{Op: "tick", T: now}); info != nil {
+			return info, pred
+		}
+		if info, pred := submit(t_api.HeartbeatLocks, func(rq *t_api.Request) {
+			rq.HeartbeatLocks = &t_api.HeartbeatLocksRequest{ProcessId: pidW}
+		}); info != nil {
+			return info, pred
+		}
+		return settle(3, ttl1/2+1)
+	}
 	for len(steps) < o.steps {
+		if hasKind(t_api.AcquireLock) && hasKind(t_api.HeartbeatLocks) && g.R.Intn(50) == 0 {
+			if info, pred := lockScenario(); info != nil {
+				return steps, len(steps) - 1, info, pred
+			}
+			continue
+		}
 		if hasKind(t_api.ClaimTask) && hasKind(t_api.HeartbeatTasks) && g.R.Intn(60) == 0 {
 			if info, pred := leaseScenario(); info != nil {
 				return steps, len(steps) - 1, info, pred
